@@ -466,6 +466,22 @@ def run_scenario(sc, do_validate=True):
                     ok = True
                     compared = 0
                     for ob in ctx.obs:
+                        if ob.kind == "true" and ob.label in cobs and isinstance(ob.cond, (SymBool, z3.BoolRef)):
+                            # truth of a condition at the path's witness: lifted run vs the float run of the real code.
+                            # A disagreement is only counted (a witness on the boundary of a strict inequality rounds either way).
+                            ct = ob.cond.t if isinstance(ob.cond, SymBool) else ob.cond
+                            if S.term_has_uf(ct):
+                                continue
+                            try:
+                                mvb = z3.is_true(model.eval(ct, model_completion=True))
+                                cvb = bool(cobs[ob.label].cond)
+                            except Exception:  # noqa: BLE001
+                                continue
+                            if mvb == cvb:
+                                compared += 1
+                            else:
+                                res["validation_true_mismatch"] = res.get("validation_true_mismatch", 0) + 1
+                            continue
                         if ob.kind != "eq" or ob.label not in cobs:
                             continue
                         it = as_term(ob.impl)
@@ -491,6 +507,9 @@ def run_scenario(sc, do_validate=True):
     res["solver_time_s"] = eng.solver_time
     res["branch_decisions"] = eng.branch_decisions
     res["assumed_nonzero"] = eng.assumed_nonzero
+    res["cross"] = eng.cross
+    for txt in eng.cross["disagree"]:
+        res["harness_errors"].append(f"solver disagreement in {sc.key}: z3 unsat, cvc5 sat on\n{txt[:1500]}")
     res["wall_s"] = time.time() - t_start
     res["labels"] = sorted(res["labels"])
     return res
@@ -600,8 +619,9 @@ def finish(prop, tier, seed, level, results, meta, t0, extra_cov=None, extra_vio
     findings = load_findings()
     agg = {k: 0 for k in ("paths", "obligations", "discharged", "within_margin", "validated",
                            "validation_skipped_uf", "queries", "unsat", "sat", "n_unknown",
-                           "branch_decisions", "assumed_nonzero")}
+                           "branch_decisions", "assumed_nonzero", "validation_true_mismatch")}
     solver_time = 0.0
+    cross = {"asked": 0, "agree": 0, "cvc5_unknown": 0, "errors": 0, "disagreements": 0, "time_s": 0.0, "first_error": None}
     funcs = set()
     unknown = []
     herrs = []
@@ -613,6 +633,12 @@ def finish(prop, tier, seed, level, results, meta, t0, extra_cov=None, extra_vio
         for k in agg:
             agg[k] += r.get(k, 0)
         solver_time += r.get("solver_time_s", 0.0)
+        for k_ in ("asked", "agree", "cvc5_unknown", "errors"):
+            cross[k_] += (r.get("cross") or {}).get(k_, 0)
+        cross["time_s"] += (r.get("cross") or {}).get("time_s", 0.0)
+        cross["disagreements"] += len((r.get("cross") or {}).get("disagree", []))
+        if cross["first_error"] is None:
+            cross["first_error"] = (r.get("cross") or {}).get("first_error")
         funcs.update(r.get("functions", []))
         unknown += [dict(u, scenario=r["key"]) for u in r["unknown"]]
         herrs += r["harness_errors"]
@@ -686,8 +712,12 @@ def finish(prop, tier, seed, level, results, meta, t0, extra_cov=None, extra_vio
         "inconclusive_obligations": [f"{u['scenario']}|{u['label']}" for u in unknown][:50],
         "solver_time_s": round(solver_time, 3),
         "solver": "z3 " + z3.get_version_string(),
+        "second_solver": dict(cross, time_s=round(cross["time_s"], 2), what="every VERIF_CROSS_EVERY-th obligation proved by z3 is re-asked to cvc5 (python wheel) "
+                              "from z3's SMT-LIB dump of the same assertions, 2 s limit; a cvc5 'sat' is a harness error (exit 2)",
+                              every=int(os.environ.get("VERIF_CROSS_EVERY", "0") or 0)),
         "assumed_nonzero": agg["assumed_nonzero"],
         "validation_skipped_uf": agg["validation_skipped_uf"],
+        "validation_condition_disagreements": agg["validation_true_mismatch"],
         "bound_hit": bound_hits,
         "harness_errors": len(herrs),
         "functions_encoded": sorted(funcs),
